@@ -100,6 +100,8 @@ struct GOpts {
   bool long_fields = true;
   bool indent_entries = true;
   bool header_trail = true;  // trailing comments on header lines
+  bool indent_comments = true;
+  bool indent_headers = true;
   int max_lines = 40;
   int fixed_di = -1, fixed_ci = -1;
   std::vector<int> allowed_di;  // empty = all
@@ -414,7 +416,7 @@ inline GFile gen_file(Src &s, const GOpts &o) {
     } else if (k == 2) {
       PLine l;
       l.kind = L_COMMENT;
-      std::string ind = (!prev_entryish && f.cls != DC_NONE && s.chance(25)) ? gen_blanks(s, 1, 3) : "";
+      std::string ind = (o.indent_comments && !prev_entryish && f.cls != DC_NONE && s.chance(25)) ? gen_blanks(s, 1, 3) : "";
       l.indented = !ind.empty();
       char c = C[s.below((uint32_t)C.size())];
       l.ctext = gen_text(s, a_ctext, gen_len(s, 0, o.long_fields));
@@ -435,7 +437,7 @@ inline GFile gen_file(Src &s, const GOpts &o) {
         if (name == "_none_") name = "none";
         secpool.push_back(name);
       }
-      std::string ind = s.chance(15) ? gen_blanks(s, 1, 2) : "";
+      std::string ind = o.indent_headers && s.chance(15) ? gen_blanks(s, 1, 2) : "";
       l.indented = !ind.empty();
       l.text = ind + "[" + name + "]" + (s.chance(15) ? gen_blanks(s, 1, 2) : "");
       if (o.trail && o.header_trail && s.chance(8)) {
